@@ -7,8 +7,10 @@ from props import heapcommon as hc
 def must_be_unchanged(op, before):
     """which part of the dump a rejected low-level op must leave as it was: 'all', 'lists+parents' or None (no claim)"""
     k = op[0]
-    if k in ('A', 'R', 'S', 'U'):
+    if k in ('A', 'R', 'S', 'U', 'D'):
         return 'all'
+    if k == 'E':
+        return 'lists+parents' if op[2] not in before[op[1]][0] else None
     if k == 'X':
         p, old, new = op[1], op[2], op[3]
         if before[old][2] == p:
